@@ -78,6 +78,8 @@ EXTRA_TRUSTED = [
     "ORIGINAL class are read from the real objects and given to the model as its input; the field-name "
     "tuple is computed from the recipe (field collection is C07's model)",
     "part B compares digests (first 60 bits of SHA-1) of the canonical JSON form of each observation",
+    "harness/translate_c08.py (AST subset -> Gallina for five pieces of _create_slots_class) and the Python views "
+    "of the model's data in the prelude of Gen/C08_slots.v; the tie lemmas of C08/Tie.v are about what it emits",
 ]
 ASSUMPTIONS = [
     "class bodies define none of the dunder names attrs generates (no user __repr__/__eq__/__setattr__ ...): "
@@ -87,6 +89,18 @@ ASSUMPTIONS = [
 ]
 
 OLD, NEW_ID = 0, 1
+
+
+def pre_build():
+    # Gen/C08_slots.v is regenerated from the current source text of _create_slots_class (gitignored)
+    from . import translate_c08
+    translate_c08.regenerate()
+
+
+def translated_tie():
+    from . import translate_c08
+    return translate_c08.regenerate(), "theories/C08/Tie.vo"
+
 
 # --------------------------------------------------------------------------------------
 # part A: source generation
@@ -1500,7 +1514,7 @@ _dist = Counter()
 def generate(tier, seed):
     rng = random.Random(seed)
     _dist.clear()
-    n_body = 1600 if tier == "quick" else 20000
+    n_body = 1300 if tier == "quick" else 20000
     cases = []
     for _ in range(n_body):
         r = gen_recipe(rng)
@@ -1516,7 +1530,7 @@ def generate(tier, seed):
     for r in TWO_BASE_SPACE:
         cases.append(two_base_case(r))
         _dist["meta two-bases"] += 1
-    n_meta = 500 if tier == "quick" else 7000
+    n_meta = 400 if tier == "quick" else 7000
     for k in range(n_meta):
         c = meta_case(seed, k)
         cases.append(c)
